@@ -27,8 +27,8 @@ for p in props:
         'technique': c.get('technique', 'Lean 4 proof over a model tied to the source by translators and a differential correspondence check'),
     })
 m = {'version': 1, 'setup_cmd': './setup.sh',
-     'hooks': {'guard': 'verif_hooks (cargo feature of the `lightning` crate; off by default)',
-               'enable': 'harness/Cargo.toml depends on lightning with features ["_test_utils","verif_hooks"]; `cargo build --offline` in /verif/harness',
+     'hooks': {'guard': 'verif_hooks (cargo feature of the `lightning` crate and, for one read-only accessor, of the `lightning-block-sync` crate; off by default)',
+               'enable': 'harness/Cargo.toml depends on lightning with features ["_test_utils","verif_hooks"] and on lightning-block-sync with feature "verif_hooks"; `cargo build --offline` in /verif/harness',
                'baseline_off_cmd': 'cd /repo && cargo test --workspace --no-fail-fast --offline',
                'source_commits': hook_commits, 'add_only': True},
      'engines': [{'name': 'lean4-proof+correspondence', 'path': '/verif/check', 'serves_properties': sorted(PROPS),
